@@ -1,3 +1,420 @@
 package main
 
-func checkMain(args []string) {}
+import (
+	"encoding/json"
+	"flag"
+	"fmt"
+	"os"
+	"path/filepath"
+	"runtime"
+	"sort"
+	"strconv"
+	"strings"
+	"time"
+
+	"golang.org/x/tools/go/ssa"
+)
+
+// ---------------------------------------------------------------------------
+// known findings
+// ---------------------------------------------------------------------------
+
+type finding struct {
+	kind       string // "finding" or "fixed"
+	prop       string
+	obligation string
+	text       string
+}
+
+func loadFindings(path string) []finding {
+	b, err := os.ReadFile(path)
+	if err != nil {
+		return nil
+	}
+	var out []finding
+	for _, ln := range strings.Split(string(b), "\n") {
+		ln = strings.TrimSpace(ln)
+		if ln == "" || strings.HasPrefix(ln, "#") {
+			continue
+		}
+		var f finding
+		switch {
+		case strings.HasPrefix(ln, "finding:"):
+			f.kind = "finding"
+			ln = strings.TrimSpace(strings.TrimPrefix(ln, "finding:"))
+		case strings.HasPrefix(ln, "fixed:"):
+			f.kind = "fixed"
+			ln = strings.TrimSpace(strings.TrimPrefix(ln, "fixed:"))
+		default:
+			continue
+		}
+		for _, w := range strings.Fields(ln) {
+			if strings.HasPrefix(w, "property=") {
+				f.prop = strings.TrimPrefix(w, "property=")
+			}
+			if strings.HasPrefix(w, "obligation=") {
+				f.obligation = strings.TrimPrefix(w, "obligation=")
+			}
+		}
+		f.text = ln
+		out = append(out, f)
+	}
+	return out
+}
+
+// ---------------------------------------------------------------------------
+// check
+// ---------------------------------------------------------------------------
+
+func hasProp(ps []string, p string) bool {
+	for _, x := range ps {
+		if x == p {
+			return true
+		}
+	}
+	return false
+}
+
+func specMentions(s *FuncSpec, prop string) bool {
+	if hasProp(s.Props, prop) {
+		return true
+	}
+	for _, c := range s.Requires {
+		if hasProp(c.Props, prop) {
+			return true
+		}
+	}
+	for _, c := range s.Ensures {
+		if hasProp(c.Props, prop) {
+			return true
+		}
+	}
+	for _, l := range s.Loops {
+		for _, c := range l.Invariants {
+			if hasProp(c.Props, prop) {
+				return true
+			}
+		}
+	}
+	for _, g := range s.Ghosts {
+		for _, h := range g.Hints {
+			if hasProp(h.Props, prop) {
+				return true
+			}
+		}
+	}
+	return false
+}
+
+type evidence struct {
+	PropertyID  string         `json:"property_id"`
+	Tier        string         `json:"tier"`
+	Seed        int            `json:"seed"`
+	Level       string         `json:"level"`
+	Coverage    map[string]any `json:"coverage"`
+	Assumptions []string       `json:"assumptions"`
+	WallS       float64        `json:"wall_s"`
+	Violations  int            `json:"violations"`
+}
+
+var generalAssumptions = []string{
+	"A-GEN: the verification-condition generator govc (go/ssa NaiveForm -> SMT-LIB) and the SMT solvers are trusted",
+	"A-INT: Go int is modelled as mathematical integer (no overflow)",
+	"A-REAL: float64 is modelled as mathematical real (no rounding, NaN or Inf)",
+	"A-STR: strings are an uninterpreted sort with length/byte-at/substring/concat axioms; < on strings is an arbitrary strict total order",
+	"A-MEM: Go memory safety: no forged or dangling pointers; a reference read from memory is allocated; distinct pointee types do not alias",
+	"A-NORETAIN: pointer parameters of functions under contract are not retained beyond the call",
+	"A-SEQ: single goroutine; no concurrent mutation of the verified state",
+}
+
+func checkMain(args []string) {
+	fs := flag.NewFlagSet("check", flag.ExitOnError)
+	repo := fs.String("repo", "/repo", "repository")
+	verif := fs.String("verif", "/verif", "verification directory")
+	prop := fs.String("prop", "", "property id")
+	tier := fs.String("tier", "quick", "quick|thorough")
+	replayOnly := fs.String("replay", "", "replay file to re-run")
+	fs.Parse(args)
+	_ = replayOnly
+	if *prop == "" {
+		fmt.Fprintln(os.Stderr, "check: -prop required")
+		os.Exit(2)
+	}
+	if t := os.Getenv("VERIF_TIER"); t != "" && *tier == "" {
+		*tier = t
+	}
+	seed := 0
+	if s := os.Getenv("VERIF_SEED"); s != "" {
+		if v, err := strconv.Atoi(s); err == nil {
+			seed = v
+		}
+	}
+	t0 := time.Now()
+	P, err := loadProg(*repo, filepath.Join(*verif, "assumed"))
+	if err != nil {
+		fmt.Fprintf(os.Stderr, "govc: cannot load %s: %v\n", *repo, err)
+		// a tree that does not compile or whose contracts do not parse is not a property verdict
+		os.Exit(2)
+	}
+	res := runProperty(P, *prop, *tier, seed, *verif)
+	res.ev.WallS = time.Since(t0).Seconds()
+	os.MkdirAll(filepath.Join(*verif, "evidence"), 0o755)
+	b, _ := json.MarshalIndent(res.ev, "", " ")
+	os.WriteFile(filepath.Join(*verif, "evidence", *prop+".json"), b, 0o644)
+	for _, l := range res.lines {
+		fmt.Println(l)
+	}
+	fmt.Printf("property=%s tier=%s obligations=%d discharged=%d known_findings=%d violations=%d functions=%d wall=%.1fs\n",
+		*prop, *tier, res.total, res.discharged, res.known, res.violations, res.nfuncs, res.ev.WallS)
+	if res.broken {
+		os.Exit(2)
+	}
+	if res.violations > 0 {
+		os.Exit(1)
+	}
+}
+
+type propResult struct {
+	ev         *evidence
+	lines      []string
+	total      int
+	discharged int
+	known      int
+	violations int
+	nfuncs     int
+	broken     bool
+}
+
+func runProperty(P *Prog, prop, tier string, seed int, verif string) *propResult {
+	res := &propResult{}
+	findings := loadFindings(filepath.Join(verif, "known_findings.txt"))
+	var units []*Unit
+	seen := map[string]bool{}
+	addFn := func(fn *ssa.Function, s *FuncSpec) {
+		k := P.fnKeys[fn]
+		if s != nil {
+			k += "[" + s.Variant + "]"
+		}
+		if seen[k] {
+			return
+		}
+		seen[k] = true
+		units = append(units, P.verifyFunction(fn, s))
+	}
+	for _, fn := range P.repoFns {
+		k := P.fnKeys[fn]
+		specs := P.specs[k]
+		any := false
+		for _, s := range specs {
+			if s.Assumed || s.Inline {
+				continue
+			}
+			any = true
+			if prop == "C08" || specMentions(s, prop) {
+				addFn(fn, s)
+			}
+		}
+		if !any && prop == "C08" {
+			addFn(fn, nil)
+		}
+	}
+	// lemmas used (transitively)
+	lemmaSeen := map[string]bool{}
+	var queue []string
+	for _, u := range units {
+		for l := range u.VC.lemmasUsed {
+			queue = append(queue, l)
+		}
+	}
+	sort.Strings(queue)
+	for len(queue) > 0 {
+		l := queue[0]
+		queue = queue[1:]
+		if lemmaSeen[l] {
+			continue
+		}
+		lemmaSeen[l] = true
+		lm := P.lemmas[l]
+		if lm == nil {
+			continue
+		}
+		u := P.verifyLemma(lm)
+		units = append(units, u)
+		var more []string
+		for m := range u.VC.lemmasUsed {
+			more = append(more, m)
+		}
+		sort.Strings(more)
+		queue = append(queue, more...)
+	}
+	// lemmas explicitly tagged with the property
+	for _, name := range P.lemmaOrder {
+		if !lemmaSeen[name] && hasProp(P.lemmas[name].Props, prop) {
+			lemmaSeen[name] = true
+			units = append(units, P.verifyLemma(P.lemmas[name]))
+		}
+	}
+	// select obligations
+	var obls []*Obligation
+	var specErrs, unsupported []string
+	trusted := map[string]bool{}
+	notes := map[string]bool{}
+	unmodelled := map[string]bool{}
+	funcs := map[string]bool{}
+	for _, u := range units {
+		n := 0
+		for _, o := range u.VC.obls {
+			if u.Kind == "lemma" || hasProp(o.Props, prop) {
+				if u.Kind == "lemma" && prop == "C08" {
+					continue
+				}
+				obls = append(obls, o)
+				n++
+			}
+		}
+		if n > 0 {
+			funcs[u.Name] = true
+			for k := range u.VC.trusted {
+				trusted[k] = true
+			}
+			for _, k := range u.VC.notes {
+				notes[k] = true
+			}
+			for k := range u.VC.unmodelled {
+				unmodelled[k] = true
+			}
+			specErrs = append(specErrs, u.Errors...)
+			for _, x := range u.VC.unsupported {
+				unsupported = append(unsupported, u.Name+": "+x)
+			}
+		}
+	}
+	timeout := 10
+	order := []string{"z3-new", "z3"}
+	if tier == "thorough" {
+		timeout = 60
+		order = []string{"z3-new", "z3", "cvc5"}
+	}
+	scratch, _ := os.MkdirTemp("", "govc-"+prop+"-")
+	defer os.RemoveAll(scratch)
+	cfg := runCfg{dir: scratch, timeout: timeout, seed: seed, order: order, workers: runtime.NumCPU(), keep: false}
+	dischargeAll(obls, cfg)
+
+	// verdicts
+	byBackend := map[string]int{}
+	solverS := 0.0
+	var slowest []*Obligation
+	var samples []any
+	replayDir := filepath.Join(verif, "replays", "out", prop)
+	os.RemoveAll(replayDir)
+	var knownMatched []string
+	for _, o := range obls {
+		res.total++
+		solverS += o.Time
+		slowest = append(slowest, o)
+		if o.Status == "discharged" {
+			res.discharged++
+			byBackend[o.Solver]++
+			continue
+		}
+		// known finding?
+		matched := false
+		for _, f := range findings {
+			if f.kind == "finding" && f.prop == prop && f.obligation == o.Name {
+				res.lines = append(res.lines, fmt.Sprintf("KNOWN-FINDING: property=%s obligation=%s %s", prop, o.Name, o.Src))
+				knownMatched = append(knownMatched, o.Name)
+				res.known++
+				matched = true
+				break
+			}
+		}
+		if matched {
+			continue
+		}
+		res.violations++
+		os.MkdirAll(replayDir, 0o755)
+		rp := filepath.Join(replayDir, mangle(o.Name)+".json")
+		smtCopy := filepath.Join(replayDir, mangle(o.Name)+".smt2")
+		os.WriteFile(smtCopy, []byte(o.render(false)), 0o644)
+		rep := map[string]any{
+			"property": prop, "obligation": o.Name, "kind": o.Kind, "clause": o.Src, "verdict": o.Status,
+			"solver": o.Solver, "solver_output": truncateStr(o.Output, 4000), "smt_file": smtCopy, "failing_input": nil,
+			"note": "the named obligation was generated from /repo's current source and could not be discharged",
+		}
+		suffix := " no-failing-input-found"
+		if o.Model != "" {
+			rep["model"] = truncateStr(o.Model, 8000)
+		}
+		if in, ok := tryReplay(P, verif, prop, o); ok {
+			rep["failing_input"] = in
+			suffix = ""
+		}
+		jb, _ := json.MarshalIndent(rep, "", " ")
+		os.WriteFile(rp, jb, 0o644)
+		res.lines = append(res.lines, fmt.Sprintf("VIOLATION property=%s replay=%s obligation=%s%s", prop, rp, o.Name, suffix))
+	}
+	// contract errors and unsupported constructs in units that carry this property are violations of the
+	// check's own preconditions: the code can no longer be brought under its contract
+	for _, e := range specErrs {
+		res.violations++
+		os.MkdirAll(replayDir, 0o755)
+		rp := filepath.Join(replayDir, fmt.Sprintf("binding_%d.json", res.violations))
+		jb, _ := json.MarshalIndent(map[string]any{"property": prop, "obligation": "binding", "error": e,
+			"note": "a contract no longer binds to the code (renamed local/parameter/function); the obligations of that function are undecided"}, "", " ")
+		os.WriteFile(rp, jb, 0o644)
+		res.lines = append(res.lines, fmt.Sprintf("VIOLATION property=%s replay=%s obligation=binding no-failing-input-found", prop, rp))
+	}
+	if prop != "C08" {
+		for _, e := range unsupported {
+			res.violations++
+			os.MkdirAll(replayDir, 0o755)
+			rp := filepath.Join(replayDir, fmt.Sprintf("subset_%d.json", res.violations))
+			jb, _ := json.MarshalIndent(map[string]any{"property": prop, "obligation": "outside-subset", "error": e,
+				"note": "a function under contract uses a construct outside the verified Go subset; its obligations are undecided"}, "", " ")
+			os.WriteFile(rp, jb, 0o644)
+			res.lines = append(res.lines, fmt.Sprintf("VIOLATION property=%s replay=%s obligation=outside-subset no-failing-input-found", prop, rp))
+		}
+	}
+	sort.Slice(slowest, func(i, j int) bool { return slowest[i].Time > slowest[j].Time })
+	var slow []string
+	for i := 0; i < len(slowest) && i < 5; i++ {
+		slow = append(slow, fmt.Sprintf("%s %.2fs %s", slowest[i].Name, slowest[i].Time, slowest[i].Solver))
+	}
+	for i, o := range obls {
+		if i%(len(obls)/3+1) == 0 && len(samples) < 4 {
+			samples = append(samples, map[string]any{"obligation": o.Name, "kind": o.Kind, "clause": o.Src, "status": o.Status, "backend": o.Solver, "time_s": o.Time, "smt_bytes": len(o.render(false))})
+		}
+	}
+	var fnames []string
+	for f := range funcs {
+		fnames = append(fnames, f)
+	}
+	sort.Strings(fnames)
+	res.nfuncs = len(fnames)
+	tb := sortedKeys(trusted)
+	for _, u := range sortedKeys(unmodelled) {
+		tb = append(tb, "unmodelled external call (havoc): "+u)
+	}
+	assumptions := append([]string{}, generalAssumptions...)
+	for _, n := range sortedKeys(notes) {
+		assumptions = append(assumptions, "note: "+n)
+	}
+	cov := map[string]any{
+		"obligations": res.total, "discharged": res.discharged,
+		"checker_cmd":  fmt.Sprintf("govc check -prop %s -tier %s (SSA->SMT-LIB; solvers raced in order %v, timeout %ds each)", prop, tier, order, timeout),
+		"trusted_base": tb, "functions_under_contract": fnames, "by_backend": byBackend, "solver_s": solverS, "slowest": slow,
+		"samples": samples, "known_findings_matched": knownMatched, "bounded": []any{},
+		"explanation": "every obligation is generated from the SSA of /repo's current working tree and discharged for all inputs and iterations (loops by invariants, recursion by contracts)",
+	}
+	res.ev = &evidence{PropertyID: prop, Tier: tier, Seed: seed, Level: "proof", Coverage: cov, Assumptions: assumptions, Violations: res.violations}
+	if res.total == 0 {
+		res.lines = append(res.lines, fmt.Sprintf("govc: no obligations generated for %s (vacuous check)", prop))
+		res.broken = true
+	}
+	return res
+}
+
+// tryReplay is extended per property by replay drivers (replay.go)
+func tryReplay(P *Prog, verif, prop string, o *Obligation) (any, bool) {
+	return runReplayDriver(verif, P.repo, prop, o)
+}
